@@ -615,11 +615,13 @@ let run_s3 (path : string) =
     print_string "E\n") (read_cases path)
 
 (* ---------- cluster ---------- *)
+let dead_nodes : string list ref = ref []
 let cluster_dump (c : cluster) : string =
   let b = Buffer.create 512 in
   List.iter (fun (name, x) ->
     let n = x.cn_node in
     let name = string_of_cl name in
+    if List.mem name !dead_nodes then Buffer.add_string b (Printf.sprintf " node=%s GONE" name) else begin
     Buffer.add_string b (Printf.sprintf " node=%s role=%s%s" name (role_letter n.n_role) (if x.cn_dead then " DEAD" else ""));
     let ms = List.map (fun (mn, (r, q)) ->
         let mn = string_of_cl mn in
@@ -634,7 +636,7 @@ let cluster_dump (c : cluster) : string =
       let ks = List.sort (fun (a, _) (b, _) -> compare a b) (List.map (fun (k, v) -> (string_of_cl k, v)) d.d_map) in
       Buffer.add_string b (String.concat "," (List.map (fun (k, v) ->
         Printf.sprintf "%s=%s@%s/%s" (esc k) (sesc v.v_val) (z_str v.v_ver) (if v.v_st = VDeleted then "D" else "L")) ks));
-      Buffer.add_string b "]") dbs) c.c_nodes;
+      Buffer.add_string b "]") dbs end) c.c_nodes;
   let ls = List.sort compare (List.filter_map (fun l ->
       if l.l_open then Some (Printf.sprintf "%s>%s:%s/%s" (string_of_cl l.l_from) (string_of_cl l.l_to) (dec_of_n l.l_sent) (dec_of_n l.l_back)) else None) c.c_links) in
   Buffer.add_string b (Printf.sprintf " links=[%s]" (String.concat "," ls));
@@ -672,6 +674,10 @@ let run_cluster (path : string) =
     let c = ref !e.e_c in
     let sync_in () = e := { !e with e_c = !c } in
     let sync_out () = c := !e.e_c in
+    let plinks = ref [] in
+    dead_nodes := [];
+    let kget () = { k_e = !e; k_plinks = !plinks; k_dead = List.map cl_of_string !dead_nodes } in
+    let kput k = e := k.k_e; plinks := k.k_plinks; dead_nodes := List.map string_of_cl k.k_dead; sync_out () in
     List.iter (fun op ->
       let before = !c.c_cross in
       sync_in ();
@@ -697,8 +703,9 @@ let run_cluster (path : string) =
               let (c', r) = client_cmd !c (cl_of_string node) (nat_of_int (int_of_string sid)) (cl_of_string line) in
               c := c'; resp_str r end end
         | ["addsec"; node; nw] -> c := add_sec !c (cl_of_string node) (cl_of_string nw); "Queued"
-        | ["pollsup"; node] -> c := poll_sup !c (cl_of_string node); "Polled"
-        | ["pollrepl"; node] -> c := poll_repl_c !c (cl_of_string node); "Polled"
+        | ["pollsup"; node] -> kput (kpoll_sup (kget ()) (cl_of_string node)); "Polled"
+        | ["pollrepl"; node] -> kput (kpoll_repl (kget ()) (cl_of_string node)); "Polled"
+        | ["kill"; node] -> if !e.e_frames <> [] then "NotQuiescent" else (kput (kkill (kget ()) (cl_of_string node)); "Killed")
         | ["deliver"; f; t] ->
           (match find_link !c f t with
            | None -> "NoLink"
@@ -717,7 +724,7 @@ let run_cluster (path : string) =
            | None -> "NoLink")
         | "settle" :: b ->
           let budget = (match b with [k] -> int_of_string k | _ -> 200) in
-          let (e', ok) = esettle (nat_of_int budget) !e in e := e'; sync_out ();
+          let (k', ok) = ksettle (nat_of_int budget) (kget ()) in kput k';
           if ok then "Settled" else Printf.sprintf "NotSettled %d" (budget + 1)
         | ["flush"; node] ->
           (match get_cn !c (cl_of_string node) with
@@ -726,7 +733,7 @@ let run_cluster (path : string) =
         | _ -> failwith "bad cluster op" in
       (* ops that went through the plain cluster functions changed [c] only *)
       (match op with
-       | ("cmd" | "tick" | "deliver" | "reply" | "settle") :: _ -> ()
+       | ("cmd" | "tick" | "deliver" | "reply" | "settle" | "pollsup" | "pollrepl" | "kill") :: _ -> ()
        | _ -> sync_in ());
       let res = if !e.e_done = [] then res0 else begin
           let d = String.concat "," (List.map (fun (nm, k) -> Printf.sprintf "%s/%d:Ok" (string_of_cl nm) (int_of_nat k)) !e.e_done) in
